@@ -476,9 +476,14 @@ def fallback_markup(d, u):
     return 'display="none"'
 
 
+# (round-5 seed C18-15) ordinary elements whose ids look like generated ones: the copies made for the users must avoid them
+DECOYS = ''.join('<rect id="%s1" x="0" y="0" width="1" height="1" fill="#fefefe"/>' % n
+                 for n in ('linearGradient', 'radialGradient', 'pattern', 'clipPath', 'mask', 'filter'))
+
+
 def doc_A(rng, d, users):
     defs = def_markup_A(rng, d)
-    body = ''
+    body = DECOYS
     for u in users:
         dm, em = user_elem(u, ref_markup(d, u, 'd'))
         defs += dm
@@ -488,7 +493,7 @@ def doc_A(rng, d, users):
 
 def doc_B(d, users, boxes):
     defs = ''
-    body = ''
+    body = DECOYS
     for i, (u, B) in enumerate(zip(users, boxes)):
         if box_free(d) and B is not None:
             defs += def_markup_B(d, i, B)
@@ -870,7 +875,7 @@ def gen_cache_case(rng):
             box = [x, y, w, h]
         body += '<g id="u%d" %s="url(#%s)">%s</g>' % (j, attr, what, shape)
         users.append(dict(id='u%d' % j, what=what, box=box))
-    doc = '<svg %s width="%d" height="%d"><defs>%s</defs>%s</svg>' % (NS, W, H, defs, body)
+    doc = '<svg %s width="%d" height="%d"><defs>%s</defs>%s%s</svg>' % (NS, W, H, defs, DECOYS, body)
     return dict(doc=doc, filters=filters, chains=chains, users=users)
 
 
@@ -903,7 +908,7 @@ def cache_items(c, tree):
                     o = o.get('mask')
                 obs = '(Some [%s])' % ';'.join(l)
             mus.append('(%s, %s, %s)' % (c['chains'][u['what']], bt, obs))
-    taken = '[1001%N; 1002%N; 1003%N; 1004%N]'
+    taken = '[1%N; 1001%N; 1002%N; 1003%N; 1004%N]'
     return ('(%s, [%s])' % (taken, ';'.join(fus)) if fus else None, '(%s, [%s])' % (taken, ';'.join(mus)) if mus else None)
 
 
@@ -1038,6 +1043,7 @@ def run(ctx):
         # distinct definition objects carry distinct ids (every user has its own resolution under its own id)
         if kind != 'nested':
             seen_ids = {}
+            node_ids = set(na.keys())        # ids of the renderable nodes of the main tree (users, decoys with generated-looking ids)
             for u in users:
                 o = user_paint(u, na) if kind in ('lg', 'rg', 'pattern') else user_group_def(u, na, kind)
                 chain = []
@@ -1050,6 +1056,8 @@ def run(ctx):
                 if o is not None and kind == 'filter':
                     chain.append(o)
                 for dd in chain:
+                    if dd['id'] in node_ids:
+                        probs.append((u['id'], 'a definition shares the id %s with an ordinary element' % dd['id'], None, None))
                     if seen_ids.setdefault(dd['id'], dd['ptr']) != dd['ptr']:
                         probs.append((u['id'], 'two definitions share the id %s' % dd['id'], None, None))
         pix_bad = r['ndiff'] > 0 and pixel_safe(d, boxes)
@@ -1130,7 +1138,7 @@ def run(ctx):
                     obs = 'None' if not pa or pa.get('k') == 'color' else '(Some (%d%%N, %s))' % (idnum(pa['def']['id']), fts(pa['def']['ts']))
                     holders.append('(%s, %s)' % (frect(B), obs))
             if simple and holders:
-                g_items.append('(%s, 1000%%N, [1000%%N; 1002%%N; 1003%%N; 1004%%N; 1005%%N], [%s])' % (fts(d['ts']), ';'.join(holders)))
+                g_items.append('(%s, 1000%%N, [1%%N; 1000%%N; 1002%%N; 1003%%N; 1004%%N; 1005%%N], [%s])' % (fts(d['ts']), ';'.join(holders)))
                 g_idx.append(ci)
         elif kind == 'pattern':
             for u, B in zip(users, boxes):
@@ -1168,7 +1176,7 @@ def run(ctx):
                         if a.get('clip'):
                             l.append((idnum(a['clip']['id']), a['clip']['ts']))
                         us_t.append('(%s, Some [%s])' % (bt, ';'.join('(%d%%N, %s)' % (i_, fts(t_)) for i_, t_ in l)))
-                cu_items.append('([1000%%N; 1001%%N], %s, [%s])' % (chain_t, ';'.join(us_t)))
+                cu_items.append('([1%%N; 1000%%N; 1001%%N], %s, [%s])' % (chain_t, ';'.join(us_t)))
                 cu_idx.append(ci)
                 ce_items.append('(%s, [%s])' % (chain_t, ';'.join(us_t)))
                 ce_idx.append(ci)
